@@ -14,7 +14,8 @@ ALGS = {
     "sha1": dict(D="VF_ALG_SHA1", B=64, bits=[None], pfx="sha1", hpfx="hmac_sha1",
                  transform="sha1_transform", init="sha1_init", update="sha1_update", final="sha1_final"),
     "sha2": dict(D="VF_ALG_SHA2", B=None, bits=[224, 256, 384, 512], pfx="sha2", hpfx="hmac_sha2",
-                 transform="sha2_transform", init="sha2_init", update="sha2_update", final="sha2_final"),
+                 transform="sha2_transform", init="sha2_init", update="sha2_update", final="sha2_final",
+                 f_cbmc=["--unwindset", "sha2_memcpy_bswap4.0:10,sha2_memcpy_bswap8.0:10", "--unwinding-assertions"]),
 }
 
 
@@ -98,24 +99,27 @@ def iuf_jobs(alg, a, bits):
                      **({"loops": a["uloops"]} if a.get("uloops") else {}),
                      cbmc=[], route="unbounded", timeout=600,
                      assumptions=[A_SIMD, A_LOG, A_MEMCPY_C]))
-    nmax = 2 * B + 2
-    for t in range(B):
-        quick = t in QUICK_TAILS(B)
-        cb = ["--unwinding-assertions"]
+    # content half of U: memcpy as byte loop (the built-in model mis-handles symbolic lengths into
+    # word-typed buffers), one job per entry tail length
+    def content(t, nmax, tier, suffix=""):
+        us = "memcpy.0:%d" % (nmax + 2)
         if a.get("uloop_unwind"):
-            cb = ["--unwindset", "%s:%d" % (a["uloop_unwind"], nmax // B + 3)] + cb
-        jobs.append(dict(name="%s.U.content.t%d" % (tag, t), harness="harness/C04/hash_UF.c",
-                         defines=base + ["VF_TRANSFORM_LOG", "VF_FN_update", "VF_TAIL=%d" % t, "VF_U_NMAX=%d" % nmax],
+            us += ",%s:%d" % (a["uloop_unwind"], nmax // B + 3)
+        jobs.append(dict(name="%s.U.content%s.t%d" % (tag, suffix, t), harness="harness/C04/hash_UF.c",
+                         defines=base + ["VF_TRANSFORM_LOG", "VF_FN_update", "VF_TAIL=%d" % t, "VF_U_NMAX=%d" % nmax, "VF_LIBC_BYTELOOP"],
                          enforce=[a["update"]], replace=[a["transform"]], functions=[a["update"]],
-                         cbmc=cb, route="bounded",
-                         bound="data_size <= %d (= 2 blocks + 2) on a %d-byte data object, entry tail length fixed to %d "
+                         cbmc=["--unwindset", us, "--unwinding-assertions"], route="bounded",
+                         bound="data_size <= %d on a %d-byte data object, entry tail length fixed to %d "
                                "(one job per tail length 0..%d; symbolic data_size, contents, count, chaining value)" % (nmax, nmax, t, B - 1),
-                         tier="quick" if quick else "thorough", timeout=600,
-                         assumptions=[A_SIMD, A_LOG]))
+                         tier=tier, timeout=900, assumptions=[A_SIMD, A_LOG, A_BYTELOOP]))
+    for t in range(B):
+        content(t, B + 2, "quick" if t in QUICK_TAILS(B) else "thorough")
+    for t in QUICK_TAILS(B):
+        content(t, 2 * B + 2, "thorough", ".n2")
     jobs.append(dict(name=tag + ".F", harness="harness/C04/hash_UF.c", defines=base + ["VF_TRANSFORM_LOG", "VF_FN_final"],
                      enforce=[a["final"]], replace=[a["transform"]] + a.get("final_extra_replace", []),
                      functions=[a["final"]],
-                     pre_instrument=[["--add-library"]], cbmc=[], route="finite", timeout=300,
+                     pre_instrument=[["--add-library"]], cbmc=a.get("f_cbmc", []), route="finite", timeout=300,
                      assumptions=[A_SIMD, A_LOG, A_WIPE]))
     stream = [a["init"], a["update"], a["final"]]
     hexfn = a["pfx"] + "_cvt_hex"
